@@ -22,12 +22,15 @@
 
   PARAMETERS (`Ctx`): the source text, the lexer's Unicode predicates, and the
   literal decoders (`str::parse::<i64|f64|u32|Ipv4Addr|Ipv6Addr>`,
-  `i64::from_str_radix`, `rustc_literal_escaper` through `unescape_str` /
-  `unescape_char` / `unescape_f_string_part`): `lit isFStringPart start stop`
+  `i64::from_str_radix`, `rustc_literal_escaper`): `lit isFStringPart start stop`
   says whether the literal token / f-string text `src[start..stop]` decodes, and
-  if not which error (kind, location) the parser reports. The theorems hold
-  for every instantiation whose error locations are spans of the source; the
-  driver instantiates it per input from the real decoders.
+  if not the kind of the error and — for an escape error — the byte range the
+  escaper reports relative to the text it was given. The parser's own
+  arithmetic on that range (`span.start + 1 + range.start`, `span.start +
+  piece_start + range.start`) is in the model. The theorems hold for every
+  instantiation whose ranges lie inside the text the escaper was given, on
+  character boundaries; the driver instantiates it per input from the real
+  decoders.
 
   `Span::merge` asserts that both spans belong to the same file: every span
   the parser makes carries `self.file`, the model has no file field.
@@ -44,7 +47,7 @@ kind of the real parser: the DRIVER's literal oracle answers with it when its
 table has no verdict for a literal yet (see `Driver/C06.lean`). -/
 inductive EKind where
   | endOfInput | failedToParseEntireInput | invalidToken | expected | invalidLiteral | custom
-  | needLit (fpart : Bool)
+  | needLit (fpart : Bool) (start stop : Nat)
   deriving DecidableEq, Repr, Inhabited
 
 /-- `ParseError`: kind and location; `hint` = location of the first hint
@@ -65,8 +68,13 @@ inductive QItem where
 structure Ctx where
   src : List Char
   P : Preds
-  /-- literal decoders: `lit fpart start stop = none` — decodes; `some (kind, location)` — the error -/
-  lit : Bool → Nat → Nat → Option (EKind × Span)
+  /-- literal decoders: `lit fpart start stop = none` — the literal token / f-string text
+  `src[start..stop]` decodes; `some (kind, j, a, b)` — it does not: the kind of the
+  `ParseError`, and for an ESCAPE error (`rustc_literal_escaper`) the byte range `a..b` it
+  reports, RELATIVE to the text it was given: the content of a string literal, or piece `j`
+  of an f-string text (the pieces between doubled braces). Every other decoding error cites
+  the token itself (`j`, `a`, `b` are not looked at). -/
+  lit : Bool → Nat → Nat → Option (EKind × Nat × Nat × Nat)
   /-- `Lexer::record_almost_keyword`: the words that get a "you probably meant" hint -/
   almostWords : List (List Char)
 
